@@ -829,3 +829,62 @@ Proof.
   destruct (aget (envp c) s_IFS) as [v|]; [intros _; apply HS; discriminate|].
   rewrite aget_map_tag. destruct (aget (locals c) s_IFS); discriminate.
 Qed.
+
+(* ------------------------------------------------------------------ the remainder is a piece of the line *)
+Lemma drop_seps_suffix seps s : exists p, s = p ++ drop_seps seps s.
+Proof.
+  induction s as [|c r [p IH]]; cbn; [now exists []|]. destruct (memb c seps); [|now exists []].
+  exists (c :: p). cbn. now rewrite <- IH.
+Qed.
+
+Lemma trim_seps_infix seps s : exists p q, s = p ++ trim_seps seps s ++ q.
+Proof.
+  unfold trim_seps. destruct (drop_seps_suffix seps s) as [p Hp].
+  destruct (drop_seps_suffix seps (rev (drop_seps seps s))) as [q Hq].
+  exists p, (rev q). rewrite Hp at 1. f_equal.
+  rewrite <- (rev_involutive (drop_seps seps s)) at 1. rewrite Hq at 1. now rewrite rev_app_distr.
+Qed.
+
+Lemma break_some seps x : forall f r, break_sep seps x = (f, Some r) -> exists c, x = f ++ c :: r.
+Proof.
+  induction x as [|c x IH]; cbn; intros f r H; [discriminate|].
+  destruct (memb c seps); [injection H as <- <-; now exists c|].
+  destruct (break_sep seps x) as [f0 o0]. injection H as <- ->.
+  destruct (IH f0 r eq_refl) as [d ->]. now exists d.
+Qed.
+
+Lemma last_cons_ne {A} (a : A) l d : l <> [] -> last (a :: l) d = last l d.
+Proof. destruct l; [congruence|reflexivity]. Qed.
+
+Lemma cut_runs_ne dflt seps k o : cut_runs dflt seps (S k) o <> [].
+Proof.
+  destruct k; cbn; [discriminate|]. destruct o as [x|]; [|discriminate].
+  destruct (break_sep seps (if dflt then drop_seps seps x else x)); discriminate.
+Qed.
+
+Lemma cut_runs_none_last dflt seps k : last (cut_runs dflt seps k None) [] = [].
+Proof.
+  induction k as [|k IH]; [reflexivity|]. destruct k as [|k]; [reflexivity|].
+  change (cut_runs dflt seps (S (S k)) None) with ([] :: cut_runs dflt seps (S k) None).
+  rewrite last_cons_ne by apply cut_runs_ne. exact IH.
+Qed.
+
+(** "the remainder in the last": what the last name receives is a contiguous piece of the line *)
+Theorem cut_runs_last_infix dflt seps : forall k x,
+  exists p q, x = p ++ last (cut_runs dflt seps k (Some x)) [] ++ q.
+Proof.
+  induction k as [|k IH]; intro x; [exists x, []; cbn; now rewrite app_nil_r|].
+  destruct k as [|k].
+  - cbn [cut_runs last]. destruct dflt; [apply trim_seps_infix|]. exists [], []. cbn. now rewrite app_nil_r.
+  - change (cut_runs dflt seps (S (S k)) (Some x))
+      with (let x1 := if dflt then drop_seps seps x else x in
+            let (f, o) := break_sep seps x1 in f :: cut_runs dflt seps (S k) o).
+    cbv zeta. set (x1 := if dflt then drop_seps seps x else x).
+    assert (HX : exists p0, x = p0 ++ x1).
+    { unfold x1. destruct dflt; [apply drop_seps_suffix|now exists []]. }
+    destruct HX as [p0 HX]. destruct (break_sep seps x1) as [f [r|]] eqn:B.
+    + rewrite last_cons_ne by apply cut_runs_ne. destruct (break_some _ _ _ _ B) as [c E].
+      destruct (IH r) as (p & q & Hr). exists (p0 ++ f ++ c :: p), q.
+      rewrite HX, E. rewrite Hr at 1. rewrite <- !app_assoc. cbn. reflexivity.
+    + rewrite last_cons_ne by apply cut_runs_ne. rewrite cut_runs_none_last. exists x, []. cbn. now rewrite app_nil_r.
+Qed.
